@@ -9,31 +9,50 @@
    This is a statement about aliasing and in-place update in the Python/NumPy runtime; a pure functional
    model satisfies it vacuously.  Model/Heap.v is a store WITH OBJECT IDENTITY (arrays, dicts, cells;
    numbers immutable) and statement-level models of the mutation-prone kernels, written with Python's
-   rebinding vs in-place rules.
+   rebinding vs in-place rules.  Model/HeapApi.v writes public entry points as explicit compositions of
+   those kernels over the cells of the argument triangle(s), mirroring the source.
 
-   PROVED here (every store, every argument list of any length, every kernel, return AND raise):
-     - frame: every object that existed before the call has the same contents afterwards
-       (C03_frame_kernels_partial), in particular every object reachable from the arguments
-       (C03_frame_reachable_partial);
-     - predicted alias graph: which results are never argument objects, which ARE the argument itself,
-       which entries of a new values dict are the very objects of the arguments
-       (C03_alias_* below).
-     Kernels: _conforming_sum, _conforming_weighted_average, summarize_cell_values,
+   PROVED here (every store, every argument list / triangle of any size, return AND raise):
+     KERNELS (C03_frame_kernels_partial, C03_frame_reachable_partial, C03_alias_xxx):
+       frame -- every object that existed before the call has the same contents afterwards -- and the
+       predicted alias graph, for _conforming_sum, _conforming_weighted_average, summarize_cell_values,
        Cell._base_replace/replace/select/derive_fields/add_statics, _merge_cell_pair, _overwrite_values,
-       _thin_cell, _values_add, _values_diff, the to_cumulative / to_incremental row chains,
-       one coordinate pile of _aggregate_period, _weight_cell_values, the vals_dict accumulation of
-       accident_quarter_to_policy_year, blend_cells (mixture).
+       _thin_cell, _values_add, _values_diff, the to_cumulative / to_incremental row chains, one coordinate
+       pile of _aggregate_period, _weight_cell_values, the vals_dict accumulation of
+       accident_quarter_to_policy_year, blend_cells (mixture and linear).
+     LIFTING (C03_frame_lifting): steps that each preserve the store they start from compose --
+       sequences, maps and folds of framed steps preserve everything that existed before the WHOLE
+       program began (allocation only appends; frames compose).
+     PUBLIC ENTRY POINTS as kernel compositions (C03_frame_<entry>: frame + which result cells ARE
+       argument cells; C03_frame_entry_points / _reachable for all of them at once):
+       to_incremental, to_cumulative (deepcopy of the first cell of a row, running-total chain),
+       summarize (metadata gcd, group by coordinates, summarize_cell_values per group), blend (mixture),
+       Triangle.select / derive_fields / replace, merge (all six join types; matched / unmatched),
+       coalesce, add_statics, thin, _aggregate_period and aggregate (to_cumulative -> per slice filter +
+       per-window summarisation -> to_incremental).
+       Modelling boundary: a Triangle is the list of references to its cells; the Triangle object, its
+       `_cells` list and the final `Triangle(...)` sort are not modelled; coordinates / metadata / dates
+       are an immutable tag and every decision taken on them (grouping, indexing, join type, evaluation
+       filter, chain checks) is an oracle function -- the theorems hold for every oracle.
    NOT PROVED (monitored and screened on every run by harness/c03.py, harness/monitor.py,
    translate/t_inplace.py):
-     - that the ~60 public entry points are compositions of these kernels with no other write;
-     - that the model is the code (heap-level correspondence on generated aliasing patterns);
+     - that the models are the code (heap-level correspondence of kernels AND entry points on generated
+       aliasing patterns: argument fingerprints, id()/shares_memory alias graph);
+     - the entry points that are NOT modelled: Triangle.__getitem__/filter/clip/right_edge/slices/
+       derive_metadata/remove_static_details/extract/to_data_frame/+ and the set operators, Cell.derive_metadata/
+       to_record, split, join, period_merge, loose_period_merge (kernel _overwrite_values only), blend (linear, at
+       triangle level; the cell-level kernel is proved), make_right_triangle, make_right_diagonal,
+       make_pred_triangle*, bootstrap, moment_match, backfill, fill_forward_gaps, shift_origin,
+       convert_currency/convert_to_dollars, disaggregate*, accident_quarter_to_policy_year (kernel only),
+       the Berquist-Sherman adjustments, weight_geometric_decay, array_from_field/array_sizes,
+       slice_to_triangle/triangle_to_slice, every bermuda.io writer, build_plot_data and the plot_* functions;
      - NumPy view semantics (basic slices, .T, frombuffer), dtype casting, user callables.
 
    Each kernel has an [Example mutant_writes_argument_*]: the natural buggy variant (accumulator seeded
    with values[0], self._values.update(..), deepcopy dropped then +=, ...) DOES change an argument object
    in the same model, so the frame theorem is not vacuous. *)
 From Coq Require Import ZArith List Bool.
-From Bermuda Require Import Model.Base Model.Heap Proofs.HeapFrame Proofs.HeapKernels.
+From Bermuda Require Import Model.Base Model.Heap Model.HeapApi Proofs.HeapFrame Proofs.HeapKernels Proofs.HeapApi.
 Import ListNotations.
 Open Scope Z_scope.
 
@@ -125,7 +144,8 @@ Definition ex_calls : list call :=
     KSelect C0 [1]; KDeriveFields C0 [(2, PNum 3)]; KAddStatics C0 C1 [1]; KMergeCellPair C0 C1;
     KOverwriteValues C0 C1 None; KThinCell C0 [1%nat]; KValuesAdd D0 D1; KValuesDiff D0 D1;
     KToCumulativeRow [C0; C1]; KToIncrementalRow [C0; C1]; KAggregateGroup 7 [C0; C1] true;
-    KWeightCellValues C0 [1; 3]; KPolicyYearCell 7 [C0; C1] [Some 1; Some 1]; KBlendCells [C0; C1] [1%nat; 0%nat] ].
+    KWeightCellValues C0 [1; 3]; KPolicyYearCell 7 [C0; C1] [Some 1; Some 1]; KBlendCells [C0; C1] [1%nat; 0%nat];
+    KBlendCellsLinear [C0; C1] [1; 3] ].
 
 (* the modelled kernels RETURN on these calls (the theorem is not about raising only) and leave the
    store untouched; a shared array passed twice is handled too *)
@@ -205,3 +225,110 @@ Proof. vm_compute; reflexivity. Qed.
 Example mutant_writes_argument_blend_cells :
   mutant_writes default_cfg ex_heap (KBlendCells [C0; C1] [1%nat; 0%nat]) = true.
 Proof. vm_compute; reflexivity. Qed.
+Example mutant_writes_argument_blend_cells_linear :
+  mutant_writes default_cfg ex_heap (KBlendCellsLinear [C0; C1] [1; 3]) = true.
+Proof. vm_compute; reflexivity. Qed.
+
+(* ================================================================== lifting and public entry points *)
+Theorem C03_frame_lifting :
+  (forall A (a : A), framed (ret a)) /\ (forall A e, framed (@raise A e)) /\ (forall o, framed (alloc o)) /\
+  (forall c k, framed (run c k)) /\
+  (forall A B (m : M A) (f : A -> M B), framed m -> (forall a, framed (f a)) -> framed (mbind m f)) /\
+  (forall A B (f : A -> M B) xs, (forall x, framed (f x)) -> framed (mapM f xs)) /\
+  (forall A B (f : B -> A -> M B) xs b, (forall b x, framed (f b x)) -> framed (foldM f xs b)) /\
+  (forall A (m : M A), framed m <-> forall h0, sat h0 m (fun _ => True)).
+Proof.
+  split; [intros; apply framed_ret|]. split; [intros; apply framed_raise|]. split; [intros; apply framed_alloc|].
+  split; [intros; apply framed_kernel|]. split; [intros; apply framed_bind; auto|].
+  split; [intros; apply framed_mapM; auto|]. split; [intros; apply framed_foldM; auto|].
+  intros A m; split; [apply framed_sat|apply sat_framed].
+Qed.
+Print Assumptions C03_frame_lifting.
+
+Theorem C03_frame_entry_points : forall (f : tagfns) (c : cfg) (h : heap) (a : apicall),
+  match run_api f c a h with
+  | Ret h' _ | Raise h' _ =>
+      (length h <= length h')%nat /\ forall l, (l < length h)%nat -> nth_error h' l = nth_error h l
+  end.
+Proof. exact api_frame. Qed.
+Print Assumptions C03_frame_entry_points.
+
+Theorem C03_frame_entry_points_reachable : forall f c h a,
+  heap_ok h -> Forall (val_ok (length h)) (api_args a) ->
+  match run_api f c a h with
+  | Ret h' _ | Raise h' _ => forall x l, In x (api_args a) -> reach h x l -> nth_error h' l = nth_error h l
+  end.
+Proof. exact api_frame_reachable. Qed.
+Print Assumptions C03_frame_entry_points_reachable.
+
+(* [post m h Q]: from the store h, m -- returning or raising -- leaves every object of h untouched, and a
+   returned value satisfies the alias statement Q *)
+Theorem C03_frame_to_incremental : forall f is_inc cells h,
+  post (api_to_incremental f is_inc cells) h
+       (fun r => if is_inc then r = cells                 (* already incremental: the argument itself *)
+                 else Forall (fresh h) r).                (* every produced cell is a new object *)
+Proof. intros; apply sat_both, sat_api_to_incremental. Qed.
+Theorem C03_frame_to_cumulative : forall f c is_inc cells h,
+  post (api_to_cumulative f c is_inc cells) h
+       (fun r => if is_inc then Forall (fresh h) r        (* incl. the first cell of a row: a deep copy *)
+                 else r = cells).
+Proof. intros; apply sat_both, sat_api_to_cumulative. Qed.
+Theorem C03_frame_summarize : forall f c gcd_ok prem cells h,
+  post (api_summarize f c gcd_ok prem cells) h (Forall (fresh h)).
+Proof. intros; apply sat_both, sat_api_summarize. Qed.
+Theorem C03_frame_blend_mixture : forall f tris picks h, post (api_blend f tris picks) h (Forall (fresh h)).
+Proof. intros; apply sat_both, sat_api_blend. Qed.
+Theorem C03_frame_select : forall cells ks h, post (api_select cells ks) h (Forall (fresh h)).
+Proof. intros; apply sat_both, sat_api_select. Qed.
+Theorem C03_frame_derive_fields : forall cells defs h,
+  post (api_derive_fields cells defs) h (fun r => defs <> [] -> Forall (fresh h) r).
+Proof. intros; apply sat_both, sat_api_derive_fields. Qed.
+Theorem C03_frame_replace : forall cells defs h, post (api_replace cells defs) h (Forall (fresh h)).
+Proof. intros; apply sat_both, sat_api_replace. Qed.
+Theorem C03_frame_merge : forall f kl kr km cells1 cells2 h,
+  post (api_merge f kl kr km cells1 cells2) h
+       (Forall (fun r => fresh h r \/ In r (cells1 ++ cells2))).   (* matched: new; unmatched: the argument's cell *)
+Proof. intros; apply sat_both, sat_api_merge. Qed.
+Theorem C03_frame_coalesce : forall f tris h,
+  post (api_coalesce f tris) h (Forall (fun r => In r (concat tris))).   (* the arguments' own cell objects *)
+Proof. intros; apply sat_both, sat_api_coalesce. Qed.
+Theorem C03_frame_add_statics : forall f cells source fields h,
+  post (api_add_statics f cells source fields) h (Forall (fun r => fresh h r \/ In r cells)).
+Proof. intros; apply sat_both, sat_api_add_statics. Qed.
+Theorem C03_frame_thin : forall n k cells ndxs h,
+  post (api_thin n k cells ndxs) h (fun r => (n = k -> r = cells) /\ ((k < n)%nat -> Forall (fresh h) r)).
+Proof. intros; apply sat_both, sat_api_thin. Qed.
+Theorem C03_frame_aggregate_period : forall f c prem cells h,
+  post (api_aggregate_period f c prem cells) h (Forall (fresh h)).
+Proof. intros; apply sat_both, sat_api_aggregate_period. Qed.
+Theorem C03_frame_aggregate : forall f c is_inc prem keep cells h,
+  post (api_aggregate f c is_inc prem keep cells) h (Forall (fresh h)).
+Proof. intros; apply sat_both, sat_api_aggregate. Qed.
+Print Assumptions C03_frame_to_cumulative.
+Print Assumptions C03_frame_merge.
+Print Assumptions C03_frame_aggregate.
+
+(* non-vacuity: on a two-cell row the entry points RETURN, leave the store untouched, and the alias
+   predictions are the interesting ones (coalesce / unmatched merge / no-op conversions return argument cells) *)
+Definition ex_tagfns : tagfns :=
+  mkTagfns (fun _ => 0) (fun t => t) (fun t => t) (fun t => t) (fun _ => 0) (fun _ => 0) (fun t => t)
+           (fun _ => 0) (fun t => t) (fun _ => 7).
+Definition ex_api_calls : list apicall :=
+  [ AToIncremental false [C0; C1]; AToIncremental true [C0; C1]; AToCumulative true [C0; C1];
+    ASummarize true true [C0; C1]; ABlend [[C0]; [C0]] [1%nat; 0%nat]; ASelect [C0; C1] [1];
+    ADeriveFields [C0; C1] [(2, PNum 3)]; AReplace [C0; C1] [DTag 9]; AMerge true true true [C0] [C1];
+    ACoalesce [[C0; C1]; [C1]]; AAddStatics [C0] [C1] [1]; AThin 2 1 [C0; C1] [1%nat];
+    AAggregatePeriod true [C0; C1]; AAggregate false true (fun _ => true) [C0; C1];
+    AAggregate true true (fun _ => true) [C0; C1] ].
+Example C03_entry_points_nonvacuous :
+  forallb (fun a => match run_api ex_tagfns default_cfg a ex_heap with
+                    | Ret h' _ => frozen_b ex_heap h'
+                    | Raise _ _ => false
+                    end) ex_api_calls = true /\
+  run_api ex_tagfns default_cfg (ACoalesce [[C0; C1]; [C1]]) ex_heap = Ret ex_heap (RVals [C0; C1]) /\
+  run_api ex_tagfns default_cfg (AMerge true true true [C0] [C1]) ex_heap = Ret ex_heap (RVals [C0; C1]) /\
+  (exists h e, run_api ex_tagfns default_cfg (AToCumulative true [C1; C0]) ex_heap = Raise h e).
+Proof.
+  split; [vm_compute; reflexivity|]. split; [vm_compute; reflexivity|]. split; [vm_compute; reflexivity|].
+  eexists; eexists; vm_compute; reflexivity.
+Qed.
